@@ -291,6 +291,13 @@ def run_case(case, backend="main"):
         if hid % 3 == 2:
             import functools
             h = functools.partial(h)
+        if hid % 3 == 1:
+            # every third handler is a BOUND METHOD of an object that nothing else refers to (an application registering
+            # `Helper(...).on_signal`): the registration itself must keep the callback alive.  A fresh object per registration.
+            class Helper:
+                def on_signal(self, signal, data, _h=h):
+                    return _h(signal, data)
+            return Helper().on_signal
         hcache[hid] = h
         return h
 
